@@ -8,6 +8,9 @@ CONSTANTS
   Tols = {1, 10}
   Kinds = {"float", "text"}
   Assocs = {"V", "C"}
+  Owns = {FALSE}
+  PGs = {0}
+  AllowCopy = FALSE
   Deviations = {}
 INVARIANT ArraysAligned
 INVARIANT VertexAtDepth
